@@ -998,6 +998,21 @@ def sub_case(ctx, k, cid):
         redo = ("set_max_delay", int(extra["max_delay"]) + 1)
     if redo is not None and not name.endswith(":directed"):
         nl = bool(rng.random() < 0.6)
+        # the threshold the object carries into the re-derivation: half of
+        # the time one set just before - every other time exactly zero
+        # (int, float, float32), the legal value that is "false"
+        kept = None
+        if not m.dead and not es and rng.random() < 0.5:
+            kept = typed(rng, 0) if rng.random() < 0.5 else \
+                sub_threshold(rng, m.S32)
+            if kept is not None and not setter(
+                    ctx, net, m, "set_threshold", kept, cid,
+                    [["set_threshold", kept]]):
+                kept = None
+            if kept is not None:
+                ctx.count("rederived_with_known_threshold")
+                if float(kept) == 0:
+                    ctx.count("rederived_with_threshold_zero")
         okq, _ = ctx.call(net.set_non_local, nl)
         rkw = {}
         if cname == "MutualInfoClimateNetwork":
@@ -1010,7 +1025,8 @@ def sub_case(ctx, k, cid):
         if okq and okr:
             okm, m3 = ctx.call(sub_model, net, name, nl)
             if okm and np.all(np.isfinite(m3.S32)):
-                m3.theta = float(net.threshold())
+                m3.theta = float(net.threshold()) if kept is None \
+                    else kept
                 vals = np.unique(np.asarray(m3.S32, dtype=np.float64))
                 # (the threshold kept from before must not sit on a value
                 #  of the new similarity)
@@ -1018,7 +1034,8 @@ def sub_case(ctx, k, cid):
                         1e-3 * max(1e-12, abs(m3.theta)):
                     ctx.count("similarity_rederived_states")
                     check_state(ctx, net, m3, redo[0], cid,
-                                ["set_non_local", nl, redo[0], redo[1]])
+                                ["set_threshold", kept, "set_non_local", nl,
+                                 redo[0], redo[1]])
         elif not okr:
             ctx.violation(f"{cname}.{redo[0]}:raises:{type(e).__name__}",
                           {"exc": repr(e)}, cid)
